@@ -31,6 +31,7 @@ SOURCES += [
     ("flow", "import os, sys as system\nfrom os import path as p, sep\nfrom . import sibling\nG = 0\ndef fl(n):\n    global G\n    i = 0\n    while i < n:\n        i += 1\n        if i % 2:\n            continue\n"
              "        if i > 10:\n            break\n    else:\n        G = i\n    for a, (b, c) in []:\n        pass\n    assert n, 'msg'\n    try:\n        n = 1 // n\n    except ZeroDivisionError:\n        pass\n"
              "    except Exception as ex:\n        raise\n    else:\n        n = 2\n    finally:\n        del i\n    return [q for q in range(n) if q], {q: q for q in range(n)}, {q for q in range(n)}, (q for q in range(n))\n"),
+    ("sharedset", "def s1(x):\n    return x in {'alpha', 'beta', 'gamma'}\ndef s2(x):\n    return x in {'alpha', 'beta', 'gamma'} or x == 'alpha'\ndef s3(x):\n    return 'gamma', 'beta', x in {'alpha', 'beta', 'gamma'}\n"),
     ("deco", "def dec(f):\n    return f\n@dec\nclass C(object):\n    a = 1\n    @staticmethod\n    def s(x=1, *y, **z):\n        return x\n    @property\n    def p(self):\n        return self.a\n"
              "    def m(self):\n        return super(C, self).__init__()\n"),
 ]
